@@ -171,6 +171,14 @@ CacheExact ==
   /\ \A o \in DOMAIN opc : opc[o].cnt = RefCount(St, o)
   /\ DOMAIN addB = InTree(tree) /\ DOMAIN remB = InTree(tree)
 
+\* the block-wise formulations of Universe.tla (used for speed on large universes) agree with the
+\* transaction-by-transaction definitions
+BlockwiseAgrees ==
+  \A b \in AllBlocks :
+    LET L == IF Par(b) = 0 THEN {} ELSE LedgerAt(Par(b))
+    IN /\ ApplyBlock(L, b, Height(b)) = ApplyBlockSeq(L, b, Height(b))
+       /\ (TxValidBlock(b) <=> TxValidBlockFrom(b, L))
+
 \* the stable set, with the in-progress delta reverted, is the ledger as of the last stable block
 StableIsLedger ==
   (sU \ {e \in sU : \E k \in 1..ing.k : LET op == BlockOps(ing.b)[k] IN op.kind = "out" /\ e.t = op.t /\ e.j = op.i})
